@@ -3,8 +3,8 @@
 Live part (SQLite): hypothesis draws a declaration set -- one wide entity with an attribute per type slot (bool, int of
 every size / unsigned, float, Decimal of several precision/scale, str with max_len / autostrip, LongStr, bytes, date,
 time / datetime / timedelta with precision options, UUID, Json, IntArray / StrArray / FloatArray; Required or Optional,
-nullable or not) -- and for every attribute a value from its full domain (extremes included) plus, for about half of
-them, a second value assigned later.  One row is written; after flush() the writing session's view of every attribute
+nullable or not, lazy or not) -- and for every attribute a value from its full domain (extremes included) plus, for
+most of them, a second value assigned later (an independent one, or a minimal change of the stored one).  One row is written; after flush() the writing session's view of every attribute
 is recorded.  Oracle, exactly as the property states it:
   fresh   a fresh db_session reads E[pk].attr == the recorded value, same type (deep through Json / arrays)
   select  select((x.id, x.attr, ...) for x in E) returns the recorded value, same type
@@ -27,7 +27,11 @@ LEVEL = 'exploration'
 RULE = ('live: one case = one (attribute declaration, value, stage) triple written to SQLite inside a drawn wide entity '
         '(23 type slots, each kept with p=0.8; options drawn per slot) and judged by three observations (fresh session '
         'E[pk].attr, select(x.attr), ==-parameter lookup) against the value the writing session holds after flush; stage = '
-        'create (constructor value) or update (second value assigned in the same or a later session). Values come from the '
+        'create (constructor value) or update (second value assigned in the same or a later session; in a quarter of the '
+        'attributes the second value is a minimal change of the stored one: +-1..4 ulps / relative 1e-15..1e-9 / sign flip for '
+        'floats, one unit at or below the scale / precision for Decimal and time types, +-n for ints, one character / byte / item '
+        'more, less or different for text, bytes, Json and arrays, or the same value again). Declarations also draw lazy=True '
+        '(3 in 10; the column is then loaded by its own SELECT on first access) and float tolerance (default, None, 1e-6). Values come from the '
         'full domain of the type plus an explicit list of extremes (size bounds, int64 bounds, +-0.0, subnormal/huge/inf floats, '
         'Decimal at and beyond scale and at full precision, year 1/999/9999, microseconds, negative and huge timedeltas, empty '
         'and non-UTF8 bytes, NUL/quote/non-BMP text, nested Json with unicode keys, empty arrays). pure: one case = one '
@@ -35,7 +39,8 @@ RULE = ('live: one case = one (attribute declaration, value, stage) triple writt
         'unchanged in the naive SQL type: fraction digits at/beyond scale or full precision, non-integer/huge/signed-zero '
         'float, |int| >= 2**31 or at a size bound, non-ASCII/control/quote/empty/padded text, empty/non-UTF8/NUL bytes, year < 1000 '
         'or >= 9000, non-zero microseconds, negative or >= 10000-day timedelta, any UUID, nested/non-ASCII/float Json, empty or '
-        'extreme arrays. Distinct by (kind, options, Required/Optional, value, stage) resp. (codec, value). Float NaN, '
+        'extreme arrays; every update to a minimal change of the stored value. Distinct by (kind, options, Required/Optional, '
+        'lazy, value, stage, previous value for minimal changes) resp. (codec, value). Float NaN, '
         'timezone-aware datetimes, top-level Json scalars and Decimal values wider than the declared precision are not generated.')
 ASSUMPTIONS = ['SQLite 3.40 live through pony.orm.dbproviders.sqlite (in-memory; 1 in 16 examples on a file database with a new '
                'connection per session)',
@@ -46,7 +51,8 @@ ASSUMPTIONS = ['SQLite 3.40 live through pony.orm.dbproviders.sqlite (in-memory;
                'from the MySQL manual']
 SHARDS = {'quick': 4, 'thorough': 16}
 MIN_EVALS = {'quick': 8000, 'thorough': 150000}
-CLASS_FLOORS = dict([('k:' + k, 0.008) for k in lib.KINDS] + [('codec', 0.05), ('stage:update', 0.1)])
+CLASS_FLOORS = dict([('k:' + k, 0.008) for k in lib.KINDS] + [('codec', 0.05), ('stage:update', 0.1), ('lazy', 0.05),
+                                                                   ('update_near', 0.02)])
 
 _counter = itertools.count(1)
 
@@ -60,18 +66,26 @@ def _account(ctx, specs, ex, evaluated, outcomes, mode):
     for (i, stage, seen) in evaluated:
         s = specs[i]
         value = s['v1'] if stage == 'create' else s['v2']
-        key = {'k': s['kind'], 'o': s['opts'], 'c': s['cls'], 'v': lib.enc(s['kind'], value), 's': stage}
+        key = {'k': s['kind'], 'o': s['opts'], 'c': s['cls'], 'v': lib.enc(s['kind'], value), 's': stage,
+               'l': s.get('lazy')}
         try:
             nt = lib.nontrivial(s['kind'], s['opts'], seen.value)
         except Exception:
             nt = lib.nontrivial(s['kind'], s['opts'], value)
         classes = ['k:' + s['kind'], 'stage:' + stage, mode]
+        if s.get('lazy'): classes.append('lazy')
+        if stage == 'update' and s.get('v2_mode') == 'near':
+            # the stored row already holds a value that differs minimally (or not at all) from the one assigned
+            classes.append('update_near')
+            key['p'] = lib.enc(s['kind'], s['v1'])
+            nt = True
         if value is None: classes.append('null')
         if ex['file_db']: classes.append('file_db')
         if stage == 'update': classes.append('update_same_session' if ex['upd_same'] else 'update_later_session')
         ctx.case(key=key, nontrivial=nt, classes=classes,
-                 sample={'attr': '%s(%s, %r)' % (s['cls'], s['kind'], s['opts']), 'stage': stage,
-                         'value': lib.enc(s['kind'], value), 'seen_after_flush': seen.show()})
+                 sample={'attr': '%s(%s, %r%s)' % (s['cls'], s['kind'], s['opts'], ', lazy=%r' % s['lazy'] if s.get('lazy') is not None else ''),
+                         'stage': stage, 'value': lib.enc(s['kind'], value), 'seen_after_flush': seen.show(),
+                         'previous': lib.enc(s['kind'], s['v1']) if stage == 'update' else None})
     for o in outcomes:
         ctx.fail(lib.case_of(specs[o['i']], ex['upd_same'], ex['file_db'], o), o['message'])
 
